@@ -7,6 +7,7 @@
 #include <langinfo.h>
 #include <map>
 #include <pthread.h>
+#include <math.h>
 #include <search.h>
 #include <stdarg.h>
 #include <stdlib.h>
@@ -966,6 +967,21 @@ struct tm* xs_gmtime(const time_t* t) { virt_access(VL_TM, true, "gmtime", RA0);
 struct tm* xs_localtime(const time_t* t) { virt_access(VL_TM, true, "localtime", RA0); return localtime(t); }
 char* xs_ctime(const time_t* t) { virt_access(VL_TM, true, "ctime", RA0); return ctime(t); }
 char* xs_asctime(const struct tm* t) { virt_access(VL_TM, true, "asctime", RA0); return asctime(t); }
+// more libc entry points with process-wide hidden state (glibc manual: MT-Unsafe race:...)
+int xs_hcreate(size_t n) { virt_access(VL_HSEARCH, true, "hcreate", RA0); return hcreate(n); }
+void xs_hdestroy(void) { virt_access(VL_HSEARCH, true, "hdestroy", RA0); hdestroy(); }
+ENTRY* xs_hsearch(ENTRY item, ACTION action) { virt_access(VL_HSEARCH, action == ENTER, "hsearch", RA0); return hsearch(item, action); }
+double xs_drand48(void) { virt_access(VL_RAND, true, "drand48", RA0); return drand48(); }
+long xs_lrand48(void) { virt_access(VL_RAND, true, "lrand48", RA0); return lrand48(); }
+long xs_mrand48(void) { virt_access(VL_RAND, true, "mrand48", RA0); return mrand48(); }
+void xs_srand48(long s) { virt_access(VL_RAND, true, "srand48", RA0); srand48(s); }
+long xs_random(void) { virt_access(VL_RAND, true, "random", RA0); return random(); }
+void xs_srandom(unsigned s) { virt_access(VL_RAND, true, "srandom", RA0); srandom(s); }
+double xs_lgamma(double x) { virt_access(VL_SIGNGAM, true, "lgamma", RA0); return lgamma(x); }
+float xs_lgammaf(float x) { virt_access(VL_SIGNGAM, true, "lgammaf", RA0); return lgammaf(x); }
+double xs_gamma(double x) { virt_access(VL_SIGNGAM, true, "gamma", RA0); return lgamma(x); }
+char* xs_ecvt(double v, int n, int* d, int* sg) { virt_access(VL_CVTBUF, true, "ecvt", RA0); return ecvt(v, n, d, sg); }
+char* xs_fcvt(double v, int n, int* d, int* sg) { virt_access(VL_CVTBUF, true, "fcvt", RA0); return fcvt(v, n, d, sg); }
 char* xs_getenv(const char* n) { virt_access(VL_ENV, false, "getenv", RA0); return getenv(n); }
 int xs_setenv(const char* n, const char* v, int o) { virt_access(VL_ENV, true, "setenv", RA0); return setenv(n, v, o); }
 int xs_putenv(char* s) { virt_access(VL_ENV, true, "putenv", RA0); return putenv(s); }
